@@ -9,3 +9,4 @@ from contracts import mailbox  # noqa
 from contracts import storage  # noqa
 from . import processor  # noqa
 from . import superrun  # noqa
+from . import lineage  # noqa
